@@ -215,6 +215,51 @@ func genC04(t *rapid.T) *Bundle {
 	}
 	left := drawRows("l", lnames, rapid.IntRange(0, 6).Draw(t, "nleft"))
 	right := drawRows("r", rnames, rapid.IntRange(0, 6).Draw(t, "nright"))
+	// now and then a table with many distinct keys: worker pools, batching and chunked hand-over of keys only
+	// show with more keys than a batch holds
+	big := rapid.IntRange(0, 24).Draw(t, "big_table") == 0
+	if big {
+		n := rapid.IntRange(66, 140).Draw(t, "big_n")
+		side, names := "l", lnames
+		if rapid.Bool().Draw(t, "big_right") {
+			side, names = "r", rnames
+		}
+		rows := []any{}
+		for i := 0; i < n; i++ {
+			row := map[string]any{"id": float64(i%3 + 1)}
+			for pi, nm := range names {
+				switch {
+				case pi == 0 && pairs[pi].IsStr:
+					row[nm] = fmt.Sprintf("k%03d", i)
+				case pi == 0:
+					row[nm] = float64(i + 1)
+				case pairs[pi].IsStr:
+					row[nm] = strDom[i%len(strDom)]
+				default:
+					row[nm] = float64(i%3 + 1)
+				}
+			}
+			rows = append(rows, row)
+		}
+		// make sure some keys have partners on the other side
+		if side == "l" {
+			left = rows
+		} else {
+			right = rows
+		}
+		other := right
+		oname := rnames[0]
+		if side == "r" {
+			other, oname = left, lnames[0]
+		}
+		for i, r := range other {
+			if pairs[0].IsStr {
+				r.(map[string]any)[oname] = fmt.Sprintf("k%03d", (i*17)%n)
+			} else {
+				r.(map[string]any)[oname] = float64((i*17)%n + 1)
+			}
+		}
+	}
 	on := drawOnTree(t, pairs, 0)
 	typ := rapid.SampledFrom([]string{"inner", "left", "right"}).Draw(t, "join_type")
 	exp := c04Expect{Type: typ, On: on, OnSQL: on.sql(), Equi: on.equi()}
@@ -245,6 +290,9 @@ func genC04(t *rapid.T) *Bundle {
 	if tricky {
 		tags = append(tags, "tricky_strings")
 	}
+	if big {
+		tags = append(tags, "big_table")
+	}
 	return &Bundle{Prop: "C04", Kind: typ, Case: c, Expect: mustJSON(exp), Tags: tags}
 }
 
@@ -272,8 +320,11 @@ func evalC04(b *Bundle, r *Runner) []*Violation {
 		infra("C04: bad expectation: %v", err)
 	}
 	var vs []*Violation
-	for _, sp := range c04Spellings[exp.Type] {
+	for si0, sp := range c04Spellings[exp.Type] {
 		parallel := strings.HasPrefix(sp, "PARALLEL")
+		if b.hasTag("big_table") && !parallel && si0 > 0 {
+			continue // big tables: every PARALLEL spelling plus one sequential baseline
+		}
 		sims := []casefmt.SimConfig{b.Case.Sim}
 		if parallel {
 			sims = c04Sims(b.Case.Sim)
@@ -423,7 +474,7 @@ func init() {
 	register(&Property{
 		ID: "C04", Race: true, Plain: true, Level: "exploration",
 		Rule:   "cases = rapid-generated logical joins (two aliased tables of 0-6 rows, 1-3 key column pairs of one scalar kind each with duplicate keys and per-side column names in arbitrary order, ON = tree of 1-4 column-to-column comparisons over = != < <= > >= joined by AND/OR with either orientation, join type inner/left/right) plus a fixed corpus; each logical join is executed once per strategy spelling of its type (8-10 spellings: automatic, HASH_JOIN, STRAIGHT_JOIN, PARALLEL variants), PARALLEL spellings in a -race child under three schedule/map-order configurations; every execution is compared as a multiset with a textbook nested-loop join computed by the driver; non-trivial = >=2 tasks runnable at some yield or a non-identity map order was applied; distinct = distinct case-file hash",
-		Corpus: corpusC04, Gen: genC04, Eval: evalC04, QuickChecks: 40,
+		Corpus: corpusC04, Gen: genC04, Eval: evalC04, QuickChecks: 30,
 		Assumptions: []string{
 			"each key column pair holds one scalar kind (number or string) and no NULLs: the statement fixes nothing about cross-kind or NULL key comparison",
 			"ThreadSanitizer on the controlled schedule decides unsynchronised appends to the join result; race reports outside join.go are left to C13",
